@@ -57,7 +57,16 @@ type Tree struct {
 	// ArgStyle: spelling of the command line. bit 0: flags before DIR; bits 1-2: include-ext as
 	// "--include-ext a,b" (0), "-i a,b" (1), "--include-ext=a,b" (2), one --include-ext per value (3);
 	// bit 3: --top-size=N instead of --top-size N.
+	// bits 4-5: --sort as "--sort X" (0), "-s X" (1), "--sort=X" (2, 3).
 	ArgStyle int `json:"arg_style,omitempty"`
+	// TopSizeOmitted: no --top-size on the command line (the tool's default, 30, applies; TopSize is 30).
+	TopSizeOmitted bool `json:"top_size_omitted,omitempty"`
+	// Sort: value of scc's --sort option ("" = not given, the default is files). It decides the order
+	// in which the languages are reported, not what is counted.
+	Sort string `json:"sort,omitempty"`
+	// Extra: further options that concern scc's own presentation only (each element is one option,
+	// "-f csv" = two words).
+	Extra []string `json:"extra,omitempty"`
 	// Second, when set, is reported after this tree by a second invocation in the same working
 	// directory (so the coca_reporter directory of the first run is still there).
 	Second *Tree `json:"second,omitempty"`
@@ -260,8 +269,13 @@ func fillSubdir(t *rapid.T, tr *Tree, f dirFiller, name string, langs []string) 
 		f.add(dir, lang)
 	}
 	// now and then many small files of one language in one place: more files than any --top-size
-	if rapid.IntRange(0, 19).Draw(t, "manyFiles") == 19 {
-		m := rapid.IntRange(9, 33).Draw(t, "nMany")
+	// (when --top-size is left out the default of 30 applies: then more often, and around 30)
+	odds, lo, hi := 19, 9, 33
+	if tr.TopSizeOmitted {
+		odds, lo, hi = 3, 26, 36
+	}
+	if rapid.IntRange(0, odds).Draw(t, "manyFiles") == odds {
+		m := rapid.IntRange(lo, hi).Draw(t, "nMany")
 		lang := rapid.SampledFrom(langs).Draw(t, "manyLang")
 		for i := 0; i < m; i++ {
 			f.addLines(name, lang, rapid.IntRange(0, 6).Draw(t, "nLinesMany"))
@@ -311,7 +325,36 @@ func genOptions(t *rapid.T, tr *Tree, langs []string) {
 		}
 	}
 	if rapid.IntRange(0, 2).Draw(t, "respell") == 0 {
-		tr.ArgStyle = rapid.IntRange(0, 15).Draw(t, "argStyle")
+		tr.ArgStyle = rapid.IntRange(0, 63).Draw(t, "argStyle")
+	}
+	// --top-size: now and then any value up to 40, now and then left out (default 30)
+	switch rapid.IntRange(0, 9).Draw(t, "topSizeForm") {
+	case 8:
+		tr.TopSize = rapid.IntRange(0, 40).Draw(t, "topSizeFree")
+	case 9:
+		tr.TopSize, tr.TopSizeOmitted = defaultTopSize, true
+	}
+	genPresentation(t, tr)
+}
+
+const defaultTopSize = 30
+
+// sortValues: the documented values of --sort. The option changes the order in which scc reports the
+// languages (default: files = number of files, descending), so with it a language with few files
+// can be reported before one with many.
+var sortValues = []string{"", "", "", "", "", "", "", "code", "name", "lines", "complexity", "comments", "blanks", "files"}
+
+// presentationOptions: options of the cloc command that concern scc's own output only (the two
+// reports are built from scc's JSON result, which coca requests itself); none of them selects what
+// is counted.
+var presentationOptions = []string{"--no-complexity", "-c", "--no-cocomo", "--no-size", "--ci", "--by-file", "--format=csv", "-f tabular", "--format json", "--size-unit=binary", "--avg-wage=1000"}
+
+func genPresentation(t *rapid.T, tr *Tree) {
+	tr.Sort = rapid.SampledFrom(sortValues).Draw(t, "sort")
+	tr.Extra = nil
+	if rapid.IntRange(0, 3).Draw(t, "presentationOptions") == 3 {
+		n := rapid.IntRange(1, 2).Draw(t, "nExtra")
+		tr.Extra = append([]string{}, rapid.Permutation(presentationOptions).Draw(t, "extraPerm")[:n]...)
 	}
 }
 
@@ -439,6 +482,8 @@ func genTree(t *rapid.T) Tree {
 				sec.IncludeExt = []string{langExt[rapid.SampledFrom(langs).Draw(t, "secondExtLang")]}
 			}
 			sec.TopSize = rapid.SampledFrom([]int{1, 2, 3, 30, 0, 5}).Draw(t, "secondTopSize")
+			sec.TopSizeOmitted = false
+			genPresentation(t, &sec)
 			tr.Second = &sec
 		case 6, 7:
 			nCounted, ignored, nEmpty, nRoot := genCounts(t)
@@ -596,6 +641,10 @@ func (tr Tree) write(base string) {
 func (tr Tree) cmdline(arg string, mode ...string) []string {
 	var flags []string
 	for i := 0; i < len(mode); i++ {
+		if mode[i] == "--top-size" && tr.TopSizeOmitted && i+1 < len(mode) {
+			i++
+			continue
+		}
 		if mode[i] == "--top-size" && tr.ArgStyle&8 != 0 && i+1 < len(mode) {
 			flags = append(flags, "--top-size="+mode[i+1])
 			i++
@@ -617,6 +666,19 @@ func (tr Tree) cmdline(arg string, mode ...string) []string {
 		default:
 			flags = append(flags, "--include-ext", joined)
 		}
+	}
+	if tr.Sort != "" {
+		switch (tr.ArgStyle >> 4) & 3 {
+		case 0:
+			flags = append(flags, "--sort", tr.Sort)
+		case 1:
+			flags = append(flags, "-s", tr.Sort)
+		default:
+			flags = append(flags, "--sort="+tr.Sort)
+		}
+	}
+	for _, e := range tr.Extra {
+		flags = append(flags, strings.Fields(e)...)
 	}
 	if tr.ArgStyle&1 != 0 {
 		return append(append([]string{"cloc"}, flags...), arg)
@@ -838,7 +900,9 @@ func parseTopStdout(stdout string) (map[string][]topRow, []string, string) {
 	return blocks, order, ""
 }
 
-func checkTopFile(tr Tree, base, ws string) (msg string, mismatchCommentBlank int) {
+// obs receives class labels that describe the report as printed (they depend on the order in which
+// the tool reports the languages, which the ground truth does not fix).
+func checkTopFile(tr Tree, base, ws string, obs *[]string) (msg string, mismatchCommentBlank int) {
 	root, _, arg := tr.layout(base)
 	args := tr.cmdline(arg, "--top-file", "--top-size", strconv.Itoa(tr.TopSize))
 	res, err := cli.Run("coca", ws, nil, args...)
@@ -906,9 +970,20 @@ func checkTopFile(tr Tree, base, ws string) (msg string, mismatchCommentBlank in
 	if len(sums) > 5 {
 		return "", mismatchCommentBlank // above five languages the tool prints no table (not judged)
 	}
-	blocks, _, perr := parseTopStdout(res.Stdout)
+	blocks, order, perr := parseTopStdout(res.Stdout)
 	if perr != "" {
 		return "stdout of --top-file: " + perr + ctx, mismatchCommentBlank
+	}
+	for i := range order {
+		for j := i + 1; j < len(order); j++ {
+			ni, nj := len(universe[order[i]]), len(universe[order[j]])
+			if ni > 0 && ni < nj {
+				*obs = append(*obs, "top_file:language_with_fewer_files_printed_before_one_with_more")
+				if ni < tr.TopSize {
+					*obs = append(*obs, "top_file:earlier_language_has_fewer_files_than_top_size_and_a_later_one_has_more")
+				}
+			}
+		}
 	}
 	for lang := range blocks {
 		if len(universe[lang]) == 0 {
@@ -1020,11 +1095,12 @@ func checkTree(tr Tree) pbt.Verdict {
 	}
 	var msgTop string
 	var mism int
+	var obs []string
 	done := make(chan struct{})
 	go func() {
 		defer close(done)
 		for i, x := range seq {
-			m, n := checkTopFile(x, base2, cwd2)
+			m, n := checkTopFile(x, base2, cwd2, &obs)
 			mism += n
 			if m != "" {
 				msgTop = m
@@ -1062,7 +1138,18 @@ func checkTree(tr Tree) pbt.Verdict {
 	if mism > 0 {
 		pbt.Count("files_whose_comment_or_blank_count_differs_from_ground_truth(not asserted)", mism)
 	}
-	return classify(tr)
+	v := classify(tr)
+	have := map[string]bool{}
+	for _, c := range v.Classes {
+		have[c] = true
+	}
+	for _, c := range obs {
+		if !have[c] {
+			have[c] = true
+			v.Classes = append(v.Classes, c)
+		}
+	}
+	return v
 }
 
 var reProfile = regexp.MustCompile(`profile\d+|\d{4}/\d\d/\d\d \d\d:\d\d:\d\d|App elapsed: +[0-9.]+[a-zµ]+`)
@@ -1149,6 +1236,14 @@ func classify(tr Tree) pbt.Verdict {
 	add(tr.Second != nil && tr.Second.Name == tr.Name, "second_report_same_tree_other_options")
 	add(tr.Second != nil && tr.Second.Name != tr.Name, "second_report_other_tree")
 	add(tr.TopSize == 0, "top_size_0")
+	add(tr.TopSizeOmitted, "top_size_omitted(default 30)")
+	add(tr.Sort != "", "sort_option_given")
+	add(tr.Sort != "" && tr.Sort != "files", "sort_by_"+tr.Sort)
+	add(len(tr.Extra) > 0, "presentation_options_given")
+	for _, e := range tr.Extra {
+		add(e == "--by-file", "presentation_option_by_file")
+	}
+	add(tr.Second != nil && tr.Second.Name == tr.Name && tr.Second.Sort != tr.Sort, "second_report_same_tree_other_sort")
 	add(len(tr.immediateSubdirs()) > 6, "more_than_6_subdirs")
 	maxCode, maxFiles, newLang, nestedIgnored, prefixPair := 0, 0, false, false, false
 	for l, codes := range perLang {
@@ -1205,6 +1300,7 @@ func classify(tr Tree) pbt.Verdict {
 		}
 	}
 	add(truncates, "top_size_truncates")
+	add(truncates && tr.TopSizeOmitted, "default_top_size_truncates")
 	add(tie, "tie_at_the_cut")
 	seenClass := map[string]bool{}
 	var uniq []string
@@ -1221,7 +1317,7 @@ func classify(tr Tree) pbt.Verdict {
 		parts = append(parts, fmt.Sprintf("%s:%s:%d", f.Path, f.Lang, f.count(kindCode)))
 	}
 	sort.Strings(parts)
-	v.Canon = strings.Join(tr.immediateSubdirs(), ",") + "|" + strings.Join(parts, ";") + "|" + strings.Join(tr.IncludeExt, ",") + "|" + strconv.Itoa(tr.TopSize)
+	v.Canon = strings.Join(tr.immediateSubdirs(), ",") + "|" + strings.Join(parts, ";") + "|" + strings.Join(tr.IncludeExt, ",") + "|" + strconv.Itoa(tr.TopSize) + "|" + tr.Sort
 	return v
 }
 
@@ -1259,13 +1355,14 @@ func checkSweep(s Sweep) pbt.Verdict {
 
 func init() {
 	pbt.SetProperty("C16")
-	pbt.Describe("rapid-generated directory trees: 0-6 (now and then 7-12) immediate subdirectories (ordinary names incl. dotted and hidden ones, names with a blank or a non-ASCII letter, names differing only in letter case, names that extend or end in an ignored name without being one (coca_reporter_old, my_coca_reporter, old.idea), names of the tool's own report files; 0-3 of the ignored names .git/.svn/.hg/.idea/coca_reporter; empty ones; ones holding only files of unknown type; files nested up to three levels, also below directories named .idea / coca_reporter / like another immediate subdirectory), 0-2 files in the root, 2-5 of 13 languages (Java, Go, Python, JavaScript, Kotlin, C, C Header, C++, C#, TypeScript, Ruby, Rust, Shell: names that are prefixes of one another, names with blanks and symbols); every file is 0-9 (now and then 10-40 or 190-260) lines that are unambiguously code (no comment marker, no quote), whole-line comment (line, one-line block, multi-line block without blank lines) or blank, optionally CRLF / no final newline, so code lines per file are known by construction (one, two and three digits); now and then 9-33 small files of one language in one directory; one file in ten is a byte-for-byte copy of an earlier file of its language; --include-ext subsets in a quarter of the cases (mostly of the tree's languages, now and then an absent one; spelled --include-ext a,b / -i a,b / --include-ext=a,b / one option per value); --top-size in {0,1,2,3,4,5,7,10,30}; flags before or after DIR; DIR given as NAME, NAME/, ./NAME, an absolute path, '.' (working directory = the tree), up/NAME or ../NAME. A quarter of the 'tree' cases are a sequence: after the first tree a second report is produced in the same working directory (coca_reporter of the first run still there), either of the same tree under other options or of another tree sharing directory names with the first; both reports are judged. The sub-check 'sweep' builds, per case, all 16 combinations of (0..3 counted subdirectories) x (an ignored name present) x (an empty directory present). Oracle: the coca binary as a sub-process: cloc DIR --by-directory -> cloc.csv header/rows/cells/summary against the ground truth, stdout rows = csv rows; cloc DIR --top-file --top-size N -> sort_cloc.json lists every counted file with its code lines, stdout has per language min(N, files) rows in non-increasing order whose lengths are the N largest and which can be assigned to distinct files. Non-trivial = at least two counted subdirectories with different language sets; distinct = hash of (subdirectories, path:language:code-lines of every file, include-ext, top-size).",
+	pbt.Describe("rapid-generated directory trees: 0-6 (now and then 7-12) immediate subdirectories (ordinary names incl. dotted and hidden ones, names with a blank or a non-ASCII letter, names differing only in letter case, names that extend or end in an ignored name without being one (coca_reporter_old, my_coca_reporter, old.idea), names of the tool's own report files; 0-3 of the ignored names .git/.svn/.hg/.idea/coca_reporter; empty ones; ones holding only files of unknown type; files nested up to three levels, also below directories named .idea / coca_reporter / like another immediate subdirectory), 0-2 files in the root, 2-5 of 13 languages (Java, Go, Python, JavaScript, Kotlin, C, C Header, C++, C#, TypeScript, Ruby, Rust, Shell: names that are prefixes of one another, names with blanks and symbols); every file is 0-9 (now and then 10-40 or 190-260) lines that are unambiguously code (no comment marker, no quote), whole-line comment (line, one-line block, multi-line block without blank lines) or blank, optionally CRLF / no final newline, so code lines per file are known by construction (one, two and three digits); now and then 9-33 small files of one language in one directory; one file in ten is a byte-for-byte copy of an earlier file of its language; --include-ext subsets in a quarter of the cases (mostly of the tree's languages, now and then an absent one; spelled --include-ext a,b / -i a,b / --include-ext=a,b / one option per value); --top-size in {0,1,2,3,4,5,7,10,30}, in one case in ten any value 0-40, in one in ten left out (default 30; such trees get a directory of 26-36 files of one language in one subdirectory in four); in half of the cases scc's --sort option with one of its documented values code/name/lines/complexity/comments/blanks/files (spelled --sort X / -s X / --sort=X), which changes the order in which the languages are reported (so that a language with few files can come before one with many) but not what is counted; in a quarter of the cases one or two further options that concern scc's own presentation only (--no-complexity/-c, --no-cocomo, --no-size, --ci, --by-file, --format/-f csv|tabular|json, --size-unit, --avg-wage); flags before or after DIR; DIR given as NAME, NAME/, ./NAME, an absolute path, '.' (working directory = the tree), up/NAME or ../NAME. A quarter of the 'tree' cases are a sequence: after the first tree a second report is produced in the same working directory (coca_reporter of the first run still there), either of the same tree under other options or of another tree sharing directory names with the first; both reports are judged. The sub-check 'sweep' builds, per case, all 16 combinations of (0..3 counted subdirectories) x (an ignored name present) x (an empty directory present). Oracle: the coca binary as a sub-process: cloc DIR --by-directory -> cloc.csv header/rows/cells/summary against the ground truth, stdout rows = csv rows; cloc DIR --top-file --top-size N -> sort_cloc.json lists every counted file with its code lines, stdout has per language min(N, files) rows in non-increasing order whose lengths are the N largest and which can be assigned to distinct files. Non-trivial = at least two counted subdirectories with different language sets; distinct = hash of (subdirectories, path:language:code-lines of every file, include-ext, top-size, sort).",
 		"row order, language column order and the order of equal-sized files are free; stdout rows and csv rows are compared as multisets after the header",
 		"files inside .git/.svn/.hg/.idea/coca_reporter as immediate subdirectories: a language that occurs only there may or may not be named in the header, and such files may or may not be listed by --top-file (the statement does not say); stdout of --top-file is judged against the files that sort_cloc.json lists. Deeper down .idea and coca_reporter are ordinary directories (their files count for the row they are under); .git/.hg/.svn are not generated below the first level (scc's deny list drops them)",
 		"the printed location is only required to be a suffix of the file's path (the tool strips the DIR prefix with TrimLeft, which can eat more)",
 		"comment and blank counts of sort_cloc.json are compared with the ground truth but only counted, not asserted (the statement speaks of code lines)",
 		"with DIR = '.' the tool's own coca_reporter directory appears inside the tree while it runs: it is an ignored directory; that form is used for single reports only (a second run would count the first run's JSON/CSV report files as source files of the tree)",
-		"not generated: directory names ending in .git/.hg/.svn (scc's deny list matches by suffix), letter-case variants of the ignored names, .gitignore/.ignore files, symlinks, names with commas, --top-size omitted or negative",
+		"not generated: directory names ending in .git/.hg/.svn (scc's deny list matches by suffix), letter-case variants of the ignored names, .gitignore/.ignore files, symlinks, names with commas, negative --top-size; options that select what is counted (--exclude-dir, --not-match, --no-duplicates, --no-large, --no-min-gen, --count-as, --remap-*) since the statement defines the figures without them; --wide/-w, --output, --debug/--verbose/--trace (they replace or interleave scc's result, from which the reports are built)",
+		"--sort and the presentation options are taken to be configurations of the quantifier: the statement's figures, row set and per-language order and truncation do not depend on them, and the oracle is the same with and without them",
 		"one tree in twelve has 6-8 languages: the by-directory report and sort_cloc.json are judged as usual, the top-file table on stdout is not (the tool prints it for up to five languages only")
 	pbt.Register("tree", 110, 400, genTree, checkTree)
 	pbt.Register("sweep", 3, 6, genSweep, checkSweep)
